@@ -66,7 +66,10 @@ def build_graph(spec):
                 params = {key: st["name"]}
                 params.update(st.get("params", {}))
                 if st.get("unset"):
-                    ukey = f"unset_mode_{level}_image1_{vm}" if level == "images" else f"unset_mode_{level}_{vm}"
+                    if st.get("unset_spelling") == "untyped":      # object-specific but without the type word
+                        ukey = f"unset_mode_image1_{vm}" if level == "images" else f"unset_mode_{vm}"
+                    else:
+                        ukey = f"unset_mode_{level}_image1_{vm}" if level == "images" else f"unset_mode_{level}_{vm}"
                     params[ukey] = st["unset"]
                 if st["parent"] is None:
                     n = mk(f"{k}r", f"all.original.{st['name']}_{vm}", [vm], params, objroot=imgs[(vm, "image1")].id)
@@ -102,6 +105,10 @@ ROOTLIKE = ("", "0root", "root", "boot", "0boot", None)
 
 def objid(o):
     return f"{o.key}:{o.long_suffix}"
+
+
+def cfloat(x):
+    return f"({float(x).hex()})%float"
 
 
 class Export:
@@ -193,6 +200,9 @@ class Export:
         pf = p.get("pool_filter", "reuse")
         edge = [(self.nidx[id(par)], [self.O(o) for o in objs if o.key != "nets"]) for par, objs in n.setup_nodes.items()]
         scopes = p.get("pool_scope", "").split()
+        # the back-off period as the code computes it (harness glue: Python's round on a binary float)
+        budget = int(p.get("test_timeout", 3600)) * int(p.get("max_tries", 1))
+        dt = round(max(budget / 1000, 0.1), 2)
         return (f"(mkNode {cbool(flat)} {cbool(n.is_shared_root())} {cbool(n.is_object_root())} {cbool(len(n.cloned_nodes) > 0)} "
                 f"{cbool(p.get('dry_run', 'no') == 'yes')} {clist([cnat(x) for x in owners])} "
                 f"{cN(self.intern(self.forms, n.bridged_form))} {cN(self.intern(self.regs, id(n._dropped_setup_nodes)))} "
@@ -201,7 +211,7 @@ class Export:
                 f"{clist([cpair(cnat(a), clist([cN(x) for x in sorted(b)])) for a, b in edge])} "
                 f"{scope} {clist([cnat(x) for x in scope_workers])} {clist([cnat(x) for x in scope_swarms])} "
                 f"{'None' if first is None else copt(cnat(first))} {self.cfg(n)} "
-                f"{'None' if mct is None else copt(cZ(int(mct)))} {cZ(int(p.get('max_tries', 1)))} {cZ(int(p.get('test_timeout', 3600)))} "
+                f"{'None' if mct is None else copt(cZ(int(mct)))} {cZ(int(p.get('max_tries', 1)))} {cZ(int(p.get('test_timeout', 3600)))} {cfloat(float(budget))} {cfloat(dt)} {cZ(int(round(dt * 100)))} "
                 f"{cN(0 if pf in ('reuse', 'block') else (1 if pf == 'copy' else 2))} {cbool('own' in scopes)} {cbool('shared' in scopes)} "
                 f"{clist([self.nobj(n, o) for o in n.objects])} {cnat(self.rank[i])})")
 
@@ -377,11 +387,25 @@ class Run:
                 if not uses_w:
                     continue
                 running = child.started_worker is not None and any(r["status"] == "UNKNOWN" for r in child.results)
+                # default_clean_decision of a non-local worker only looks at workers of its own swarm
+                cross = cw != worker.id and worker.swarm_id != "localhost" and worker.swarm_id not in (cw or "")
                 if running:
-                    self.monitor.append(("C05", "state removed while a dependant is running", w, ni))
+                    self.monitor.append(("C05", "state removed while a dependant is running" + (" in another swarm" if cross else ""), w, ni))
                 elif cw == worker.id and child.finished_worker is None and not child.results \
                         and worker.id not in member._dropped_cleanup_nodes.get_workers(child):
                     self.monitor.append(("C05", "state removed while a dependant is pending", w, ni))
+                elif cw != worker.id and between in scopes and child.finished_worker is None and not child.results \
+                        and cw in (member._picked_by_setup_nodes.get_workers() | member._picked_by_cleanup_nodes.get_workers()) \
+                        and cw not in member._dropped_cleanup_nodes.get_workers(child):
+                    # a dependant of another worker that already took part (picked the producer) is still to come: it
+                    # must not lose its only copy of the state
+                    left = [x for x in sts if x not in self.store.get(cw, set()) and x not in self.store.get(None, set())
+                            and any(objid(o) == x[0] and o.object_typed_params(child.params).get("get_state") == x[1] for o in child.objects)]
+                    producer_results = [r for m in [n] + list(n.bridged_nodes) for r in m.results]
+                    only_w = left and all(r["status"] != "PASS" or worker.id in r["name"] for r in producer_results)
+                    if left and only_w:
+                        self.monitor.append(("C05", "state removed while a dependant of an involved worker is pending" +
+                                             (" in another swarm" if cross else ""), w, ni))
 
     # -- observation wrappers
     def patches(self):
@@ -520,7 +544,7 @@ class Run:
                 iv[5] = pre
                 break
 
-    def go(self, rng, outcome_of, wake_bias=0.5, fixed=None):
+    def go(self, rng, outcome_of, wake_bias=0.5, fixed=None, timed=False):
         """drive until every worker exited / failed or the section budget is used up"""
         from avocado_i2n.plugins.runner import TestRunner
         runner = TestRunner()
@@ -536,6 +560,11 @@ class Run:
             self.mct_seen = [n.params.get("max_concurrent_tries") for n in self.x.nodes]
             state = ["ready"] * len(coros)      # ready | run | sleep | done
             pending = [None] * len(coros)
+            # timed mode: a discrete-event simulation of the event loop - every test lasts less than its
+            # test_timeout, every back-off exactly its period; the worker whose wake-up time is smallest goes next
+            ready_at = [0.0] * len(coros)
+            self.timed = timed
+            self.clock = 0.0
             while any(s != "done" for s in state) and len(self.sections) < self.max_sections:
                 alive = [i for i, s in enumerate(state) if s != "done"]
                 runnable = [i for i in alive if state[i] != "sleep"] or alive
@@ -549,7 +578,12 @@ class Run:
                     if state[w] == "done":
                         break
                 else:
-                    w = rng.choice(pool)
+                    if timed:
+                        tmin = min(ready_at[i] for i in alive)
+                        w = rng.choice([i for i in alive if ready_at[i] <= tmin + 1e-9])
+                        self.clock = ready_at[w]
+                    else:
+                        w = rng.choice(pool)
                     out = None
                     if state[w] == "run":
                         node = pending[w]
@@ -574,7 +608,12 @@ class Run:
                         continue
                     if req[0] == "run":
                         state[w], pending[w] = "run", req[1]
+                        limit = float(req[1].params.get("test_timeout", 100))
+                        # the two steps of an object creation count as one execution: together below the time-out
+                        share = 0.45 if req[1].params.get("object_root") or req[1].params.get("type") == "shared_configure_install" else 0.9
+                        ready_at[w] = self.clock + rng.uniform(0.05, share) * limit
                     else:
+                        ready_at[w] = self.clock + req[1]
                         state[w] = "sleep"
                         now = [n.params.get("max_concurrent_tries") for n in self.x.nodes]
                         self.cur.append(("bounce", w, int(round(req[1] * 100)), now != self.mct_seen))
